@@ -77,3 +77,7 @@ claim('C19', 'stress exploration (property-based plans of concurrent calls relea
       'Exploration: 240 (quick) / 2 400 (thorough) generated plans of 2-16 threads x 3-10 calls, each plan repeated 20-60 times; every concurrent result must equal the result of the same call run alone. The harness does not control the scheduler, so this explores interleavings under load rather than enumerating them.',
       'Detects shared mutable state introduced between threads with high probability, not with certainty.',
       'DESIGN.md 6 C19, 8')
+claim('C17', 'property-based testing with the verif_hooks memo wrapper: differential of every bounded capacity (1024 … 1) against the unbounded table on corpus / generated / mutated inputs, deterministic insert budget, exact attribution of listed finding K3',
+      'Exploration: ~7 600 (quick) inputs x 3-11 capacities (~42 000 configurations): acceptance and the whole tree must equal the unbounded-table result; evictions are certain (inserts > capacity, from the hook counters) in ~80 % of the cases. A divergence is tolerated only when the recursion-aware key removes it (listed finding K3); everything else is a violation.',
+      'Needs the verif_hooks feature (wrapper around the real PackratStorage). Runs that exhaust the insert budget are inconclusive.',
+      'DESIGN.md 6 C17, 5')
